@@ -840,6 +840,10 @@ theorem hstep_spec (st : HState K V) (hi : HInv st) (op : HOp K V) :
   | updateExtendAbort l =>
     have := addAll_spec hi.s l
     exact ⟨⟨this.1, hi.t⟩, by simp only [hstep, Spec.hstep, absH, this.2], rfl⟩
+  | updateMapAbort l =>
+    have := setAll_spec hi.s l
+    exact ⟨⟨this.1, hi.t⟩, by simp only [hstep, Spec.hstep, absH, this.2], rfl⟩
+  | rejected => exact ⟨hi, rfl, rfl⟩
   | copyToT => exact ⟨⟨hi.s, (copy_spec st.s).1⟩, by simp [hstep, Spec.hstep, absH, (copy_spec st.s).2], rfl⟩
   | copyToS => exact ⟨⟨(copy_spec st.s).1, hi.t⟩, by simp [hstep, Spec.hstep, absH, (copy_spec st.s).2], rfl⟩
   | swap => exact ⟨⟨hi.t, hi.s⟩, rfl, rfl⟩
@@ -1343,6 +1347,44 @@ theorem setAll_eq_replaceBy (L m : List (K × V)) (hm : (dkeys m).Nodup) :
     apply List.filter_congr
     intro q _
     by_cases e : q.1 = p.1 <;> simp [notK, e]
+
+/-! ### the view objects and `fromkeys` -/
+
+theorem viewValuesIter_spec {s : OMD K V} (h : Inv s) : s.viewValuesIter = .ok (Spec.values s.cells) := by
+  unfold OMD.viewValuesIter OMD.iter
+  rw [keys_spec]
+  have : Spec.values s.cells = (Spec.keys s.cells).filterMap (fun k => Spec.last k s.cells) := by
+    simp only [Spec.values, Spec.items, List.map_filterMap]
+    congr 1
+    funext k
+    cases Spec.last k s.cells <;> rfl
+  rw [this]
+  apply mapE_filterMap
+  intro k hk
+  rw [mem_keys] at hk
+  obtain ⟨v, hv⟩ := getLast?_of_ne hk
+  refine ⟨v, ?_, by simp [Spec.last, hv]⟩
+  rw [getitem_spec h]; simp [Spec.getitem, Spec.last, hv]
+
+theorem viewItemsContains_spec [DecidableEq V] {s : OMD K V} (h : Inv s) (k : K) (v : V) :
+    s.viewItemsContains k v = .ok (decide (Spec.last k s.cells = some v)) := by
+  unfold OMD.viewItemsContains
+  rw [getitem_spec h]
+  unfold Spec.getitem
+  cases Spec.last k s.cells with
+  | none => simp
+  | some x => simp
+
+theorem valsOf_mapConst (k : K) (d : V) (ks : List K) :
+    valsOf k (ks.map fun k' => (k', d)) = List.replicate (ks.count k) d := by
+  induction ks with
+  | nil => rfl
+  | cons a r ih =>
+    rw [List.map_cons, valsOf_cons, ih]
+    by_cases e : a = k
+    · subst e; simp [List.replicate_succ]
+    · have : ¬ (a == k) = true := by simpa using e
+      simp [e, List.count_cons, this]
 
 /-- on the plain list a failing operation changes nothing -/
 theorem spec_err_unchanged (st : Spec.HState K V) (op : HOp K V) (e : Err)
